@@ -354,4 +354,132 @@ theorem sender_union_holds : SenderUnion implUnion := by
   have := run_inv cs { heap := h } (inv_init h hh) hc
   exact ⟨this.2, pending_of_inv _ this.1⟩
 
+/-- when the queued objects did not change while queued, the emission is exactly the join -/
+theorem good_exact (sent : Option State) (q : List (Ref × State)) (h : Heap) (hg : GoodEmission sent q h)
+    (hsame : ∀ e ∈ q, curValue h e.1 = e.2) :
+    ∃ x, sent = some x ∧ ∀ i k, tget (x.sel i) k = sjoin (q.map (·.2)) i k := by
+  obtain ⟨x, hx, hb⟩ := hg
+  refine ⟨x, hx, fun i k => ?_⟩
+  have hm : (q.map fun e => curValue h e.1) = q.map (·.2) := List.map_congr_left hsame
+  have := hb i k
+  rw [hm] at this
+  exact tle_antisymm this.2 this.1
+
+/-! ### the unrepaired tree: literal witnesses -/
+
+def nonNegB (m : Map) : Bool := m.all fun e => decide (0 ≤ e.2.add) && decide (0 ≤ e.2.del)
+
+theorem lookup_mem (m : Map) (k : Bytes) (v : Val) (h : List.lookup k m = some v) : (k, v) ∈ m := by
+  induction m with
+  | nil => simp at h
+  | cons e m ih =>
+    obtain ⟨a, b⟩ := e
+    rw [lookup_cons_eq] at h
+    by_cases hk : k = a
+    · subst hk; rw [if_pos rfl] at h; rw [Option.some.inj h]; exact List.mem_cons_self
+    · rw [if_neg hk] at h; exact List.mem_cons_of_mem _ (ih h)
+
+theorem nonNeg_of_nonNegB (m : Map) (h : nonNegB m = true) : NonNeg m := by
+  intro k
+  unfold Lww.get
+  cases hl : List.lookup k m with
+  | none => simp [Val.zero]
+  | some v =>
+    have := List.all_eq_true.1 h _ (lookup_mem m k v hl)
+    simpa using this
+
+instance (m : Map) : Decidable (NoDup m) := by unfold NoDup; infer_instance
+
+def stateOkB (s : State) : Bool :=
+  [SetId.sub, SetId.ban, SetId.conn].all fun i => nonNegB (s.sel i) && decide (NoDup (s.sel i))
+
+theorem stateOk_of_stateOkB (s : State) (h : stateOkB s = true) : StateOk s := by
+  intro i
+  have := List.all_eq_true.1 h i (by cases i <;> simp)
+  simp only [Bool.and_eq_true, decide_eq_true_eq] at this
+  exact ⟨nonNeg_of_nonNegB _ this.1, this.2⟩
+
+theorem heapOk_of_all (h : Heap) (hb : h.all (fun o => stateOkB o.st) = true) : HeapOk h :=
+  fun o ho => stateOk_of_stateOkB _ (List.all_eq_true.1 hb o ho)
+
+instance (a b : Int × Int) : Decidable (tle a b) := by unfold tle; infer_instance
+
+def k1 : Bytes := [0x6b, 0x31]
+def k2 : Bytes := [0x6b, 0x32]
+/-- two one-operation payloads, as two `Notify` calls produce them -/
+def opA : Obj := { st := { ban := [(k1, ⟨5, 0, []⟩)] } }
+def opB : Obj := { st := { ban := [(k2, ⟨5, 0, []⟩)] } }
+/-- the live state of a broker: durable -/
+def liveA : Obj := { st := { ban := [(k1, ⟨5, 0, []⟩)] }, durable := true }
+
+/-- two different operations broadcast over one link before it sends: only the second one is sent -/
+def lostUpdate : List Call := [.put 0 (some 1) 0, .put 0 (some 1) 1, .pick 0 (some 1)]
+
+theorem lostUpdate_emits :
+    (run implDelta { heap := [opA, opB] } lostUpdate).2 =
+      [.emitted 0 (some 1) (some opB.st) [(0, opA.st), (1, opB.st)]
+        [{ st := { ban := [(k2, ⟨5, 0, []⟩), (k1, ⟨5, 0, []⟩)] } }, opB]] := by
+  rfl
+
+theorem heapOk_AB : HeapOk [opA, opB] := heapOk_of_all _ (by decide)
+theorem heapOk_liveB : HeapOk [liveA, opB] := heapOk_of_all _ (by decide)
+
+theorem callsOk_lostUpdate : CallsOk implDelta { heap := [opA, opB] } lostUpdate :=
+  ⟨trivial, trivial, trivial, trivial⟩
+
+/-- the full statement is false of the unrepaired code: the first of two queued operations is lost -/
+theorem sender_union_delta_refuted : ¬ SenderUnion implDelta := by
+  intro h
+  have h1 := (h.1 [opA, opB] lostUpdate heapOk_AB callsOk_lostUpdate).1
+  rw [lostUpdate_emits] at h1
+  obtain ⟨x, hx, hb⟩ := h1 _ List.mem_cons_self
+  cases hx
+  have := (hb .ban k1).1
+  revert this
+  decide
+
+/-- the same update queued twice (two objects): `Merge` returns nil, the bucket becomes empty, nothing is pending -/
+def duplicate : List Call := [.put 0 none 0, .put 0 none 1]
+
+theorem duplicate_drops_queue : ¬ GoodPending implDelta (run implDelta { heap := [opA, opA] } duplicate).1 := by
+  intro h
+  have hg : ((run implDelta { heap := [opA, opA] } duplicate).1.links 0).ghost none = [(0, opA.st), (1, opA.st)] := rfl
+  obtain ⟨d, hd, _⟩ := h 0 none (by rw [hg]; simp)
+  have hb : ((run implDelta { heap := [opA, opA] } duplicate).1.links 0).bk none = none := rfl
+  rw [hb] at hd
+  cases hd
+
+/-- one object on two links: the merge on the first link rewrites the object the second link still holds -/
+theorem shared_object_rewritten : ¬ Intact implDelta := by
+  intro h
+  have := (h (run implDelta { heap := [opA, opB] } [.put 0 (some 1) 0, .put 1 (some 1) 0]).1 0 (some 1) 1).1
+  have := congrArg (fun hp => (curValue hp 0).ban) this
+  revert this
+  decide
+
+/-- a delta is pending and the periodic gossip queues the live (durable) state: failed type assertion -/
+theorem live_state_panics :
+    (run implDelta { heap := [liveA, opB] } [.put 0 none 1, .put 0 none 0]).2 = [.panicked 0 none] := rfl
+
+/-- the full state is pending and a delta arrives: it is merged into the live state (where it already is), `Merge`
+returns nil and the queued full-state gossip is gone -/
+theorem live_state_dropped :
+    ((run implDelta { heap := [{ liveA with st := { ban := [(k1, ⟨5, 0, []⟩), (k2, ⟨5, 0, []⟩)] } }, opB] }
+        [.put 0 none 0, .put 0 none 1]).1.links 0).bk none = none := rfl
+
+/-- the same object twice on one bucket: one mutex locked twice -/
+theorem repeat_deadlocks :
+    (run implDelta { heap := [opA] } [.put 0 (some 1) 0, .put 0 (some 1) 0]).2 = [.hung 0 (some 1)] := rfl
+
+/-- a nil interface left in `broadcasts[src]` by a nil `Merge` result: the next `Broadcast` for that source panics,
+and `pick` hands nil to the deliver loop -/
+theorem nil_entry_panics :
+    (run implDelta { heap := [opA, opA, opB] } [.put 0 (some 1) 0, .put 0 (some 1) 1, .put 0 (some 1) 2]).2 = [.panicked 0 (some 1)] ∧
+    (run implDelta { heap := [opA, opA] } [.put 0 (some 1) 0, .put 0 (some 1) 1, .pick 0 (some 1)]).2 =
+      [.emitted 0 (some 1) none [(0, opA.st), (1, opA.st)] [opA, { st := {} }]] := ⟨rfl, rfl⟩
+
+/-- the same histories on the repaired payload type -/
+example : ∃ x, (run implUnion { heap := [opA, opB] } lostUpdate).2 = [.emitted 0 (some 1) (some x) [(0, opA.st), (1, opB.st)] [opA, opB]] ∧
+    tget x.ban k1 = (5, 0) ∧ tget x.ban k2 = (5, 0) := ⟨_, rfl, by decide, by decide⟩
+
 end Emitter.Gossip
